@@ -23,6 +23,27 @@ CLAIMS = {
         COMMON_NOTE + "Not modelled: process start-up, pickling, real time-outs, tqdm. Assumes a wait() batch behaves like its "
         "futures completing one at a time.",
         "DESIGN.md §3 C13"),
+    "C08": (
+        "Coq proof (cap theorems for every spectrum in every number system + invariant by induction over operation sequences) + bit-exact kept-rank correspondence by spectrum injection",
+        "Machine-checked proof that the rank returned by the two-site split (both truncation modes, both values of the dynamic "
+        "flag, any spectrum, exact or binary64 arithmetic) is at most max(max_bond_dim, min(min_bond_dim, rank)), that "
+        "two_site_svd respects its cap, and that over every sequence of split / centre-move operations with adversarial spectra "
+        "each bond stays below max(cap, min_bond_dim, its initial value). The model's binary64 instance is compared bit-exactly "
+        "with the real split_mps_tensor / two_site_svd on injected spectra (ties, rank-deficient, zero, thresholds at exact "
+        "cumulative weights); whole simulator runs with caps 1..6 (digital, analog, noisy) are searched for a bond above the bound.",
+        COMMON_NOTE + "Modelled, not verified: LAPACK validity; that QR/one-site updates never enlarge a bond (checked by the whole-run search only).",
+        "DESIGN.md §3 C08"),
+    "C09": (
+        "Coq proof over exact rationals (loop invariant: discarded weight <= threshold, maximality, relative count, clamping) + bit-exact kept-rank correspondence + dense-SVD search",
+        "Machine-checked proof, for every spectrum, threshold, min/max bond and flag: the discarded-weight loop cuts at most the "
+        "threshold (exact rationals) and no less than it could, the value used is that choice clamped into [min_keep, cap] so the "
+        "weight exceeds the threshold only if the cap forced it, the kept rank never exceeds the number of singular values, relative "
+        "mode counts exactly the values >= threshold*largest and clamps, two_site_svd cuts strictly less than its threshold and keeps "
+        "at least two. PARTIAL: the reconstruction identity |theta-AB|^2 = discarded weight, the isometry of the advertised factor and "
+        "the agreement of the three distributions are checked numerically against a dense SVD on generated tensors (search), not yet "
+        "mechanised; binary64 accumulation is compared bit-exactly with the model but the inequality is proved over Q.",
+        COMMON_NOTE + "Modelled, not verified: LAPACK returns a valid SVD with non-increasing non-negative values.",
+        "DESIGN.md §3 C09"),
 }
 
 NOT_YET = "check not built yet in this round (planned in DESIGN.md §3); no claim is made"
